@@ -93,6 +93,10 @@ func (m *MycatPartitionLongShard) Init() error {
 
 	segmentLength := 0
 	for i := 0; i < countSize; i++ {
+		// entries outside these bounds would index outside ai and segment below
+		if countList[i] < 0 || countList[i] > m.shardNum || lengthList[i] < 0 || lengthList[i] > PartitionLength {
+			return fmt.Errorf("error, partition count must be in [0, shardNum] and partition length in [0, %d]", PartitionLength)
+		}
 		segmentLength += countList[i]
 	}
 
